@@ -11,6 +11,7 @@ RULE = ("polylines of 2..60 vertices (random, closed loops, grids with axis-para
         "direction components. distinct = distinct (tag, input)")
 TRUSTED_BASE = [
     "Coq 8.16.1 kernel and vm_compute",
+    "translator tools/rs2v.py: intersection_param regenerated from src/geom2/line2.rs every run and proved equal to the model's by reflexivity",
     "hand-written model coq/Model/Intersect.v tied by differential correspondence Tie/C06.v (per-edge results, sorted de-duplicated list, spanning ray, maximum, farthest vertex, pruning test lane)",
     "hook geom2::polyline2::verif::slab_hit (feature verif) exposes one lane of the private cast_ray",
     "parry's bounding volume tree construction (every leaf box contains its edge, every node box its children) is assumed; its effect is checked end to end on every case: accelerated result = per-edge scan",
@@ -19,6 +20,14 @@ ASSUMPTIONS = [
     "theorems over exact reals; in binary64 the pruning test carries a relative slack of 8 ulp (fix for D18) and is compared lane by lane with the model",
     "hits closer than 1e-8 in parameter are merged by the code; completeness is up to that merge",
 ]
+
+
+# translator tie: intersection_param is regenerated from src/geom2/line2.rs on every run and must be convertible with the model
+SPECS = [dict(rust="src/geom2/line2.rs", gen="Line2", model="Model.Intersect", fns=["intersection_param"])]
+
+
+def translate():
+    return C.translator_tie(SPECS)
 
 
 def rnd_poly(rng):
